@@ -89,6 +89,7 @@ type Path struct {
 
 	covers  map[string]bool
 	pools   map[*Value][]Value // sync.Pool contents (environment model)
+	syncMaps map[*Value][][2]Value // sync.Map contents
 	asserts int
 
 	pendingChildren [][]int32
